@@ -59,6 +59,13 @@ def fresh (name : String) (ty : Ty) (acc : Bool) (k : Nat) : Res :=
   { name, ty, value := 0, counts := if ty = .choice then List.replicate k 0 else [], total := 0,
     rsum := 0, rsq := 0, n := 0, acc, vlist := [], tlist := [] }
 
+/-- number of choices given as a count: a Python int or any numpy integer ≥ 0 (`k`); a
+    non-integer is refused (`RuntimeError`), a negative one by `np.zeros` (`ValueError`) -/
+def choiceNumOf (t : Rat) : Except PyErr Nat :=
+  if t.den ≠ 1 then .error .RuntimeError
+  else if t.num < 0 then .error .ValueError
+  else .ok t.num.toNat
+
 /-- numpy index normalisation: `-len ≤ i < len` -/
 def pyIndex (len : Nat) (i : Int) : Option Nat :=
   if 0 ≤ i ∧ i < len then some i.toNat
@@ -99,6 +106,22 @@ def update (r : Res) (o : Obs) : Res × Option PyErr :=
         | some i =>
             ({ r with n := r.n + 1, counts := incr r.counts i, total := r.total + 1,
                       vlist := if r.acc then r.vlist ++ [o.v] else r.vlist }, none)
+
+/-- `Result.create(name, update_type, value, total, accumulate_values)`: documented as
+    "creating the object and then calling its update method" (for CHOICE `total` is the number of
+    choices and must not be 0) -/
+def createRes (name : String) (ty : Ty) (v t : Rat) (acc : Bool) : Except PyErr Res :=
+  match ty with
+  | .choice =>
+    if t = 0 then .error .RuntimeError
+    else match choiceNumOf t with
+      | .error e => .error e
+      | .ok k => match update (fresh name .choice acc k) ⟨v, none⟩ with
+        | (r, none) => .ok r
+        | (_, some e) => .error e
+  | _ => match update (fresh name ty acc 0) ⟨v, some t⟩ with
+    | (r, none) => .ok r
+    | (_, some e) => .error e
 
 /-- numpy `a += b` on 1-D int arrays (rhs broadcast when it has one element) -/
 def addCounts (a b : List Nat) : Option (List Nat) :=
